@@ -6,8 +6,10 @@ import importlib
 from .report import Ctx
 
 
-def run_full(mod, pm, ctx):
+def run_full(mod, pm, ctx, adopt=True):
     mod.run(pm, ctx)
+    if not adopt:
+        return
     for src_prop, rules, why in getattr(mod, "ADOPT", ()):
         sm = importlib.import_module(f"gcverif.props.{src_prop.lower()}")
         sub = Ctx(src_prop, ctx.tier, quiet=True)
